@@ -343,7 +343,11 @@ def run_c09(prop, tier, seed, t0):
     picks = [(seed * 29 + k * 11) % cs for k in range(3 if quick else 16)]
     jobs += buf_miri("cursors", [["--shard", str(k), "--nshards", str(cs)] for k in picks], "miri-i686-curs", seed, target="i686-unknown-linux-gnu")
     jobs += buf_miri("readers", [["--seed", str(seed + 5), "--shard", str(k), "--nshards", "2", "--count", "60" if quick else "250"] for k in range(2)], "miri-i686-rd", seed, target="i686-unknown-linux-gnu")
-    return run_and_finish(prop, tier, seed, t0, jobs, READER_RULE + " Part 3 sweeps io::Cursor as a Buf: data lengths 0..=4 x positions inside / at / past the end and around 2^32, 2^33, 2^63, u64::MAX (beyond usize on a 32-bit target) x bare / Take / Chain x every op with ordinary and near-usize::MAX counts, after 0 or 1 earlier ops; complete natively in debug and release, slices under Miri i686.", extra={"fragmentations_exhaustive_up_to_len": 6 if quick else 7},
+    # BytesMut as a Buf across the 32-bit limit of its front-offset bits (128 MiB buffer): natively (64-bit: no
+    # representation change) and under Miri i686, where the advance crossing 2^27-1 promotes the handle
+    jobs += buf_jobs("rel", "bigadv", seed, 1, [], "bigadv-rel", parity=False)
+    jobs += buf_miri("bigadv", [["--shard", str(k), "--nshards", "4"] for k in range(4)], "miri-i686-bigadv", seed, target="i686-unknown-linux-gnu")
+    return run_and_finish(prop, tier, seed, t0, jobs, READER_RULE + " Part 3 sweeps io::Cursor as a Buf: data lengths 0..=4 x positions inside / at / past the end and around 2^32, 2^33, 2^63, u64::MAX (beyond usize on a 32-bit target) x bare / Take / Chain x every op with ordinary and near-usize::MAX counts, after 0 or 1 earlier ops; complete natively in debug and release, slices under Miri i686. Part 4: a 128 MiB BytesMut advanced across the 32-bit limit of its front-offset bits (bare / Take / Chain / &mut), natively and under Miri i686 (where that advance changes the representation).", extra={"fragmentations_exhaustive_up_to_len": 6 if quick else 7},
                           assumptions=["the harness Seg buffer itself obeys the Buf laws (it is checked by the same oracle as a bare leaf)"])
 
 
